@@ -573,13 +573,17 @@ def apply(s, op, check, viols, case):
     return "ok"
 
 
+def _por_start(init, hist):
+    last = hist[-1][0] if hist else None
+    muts = init["muts"]
+    return muts.index(last) + 1 if last in muts else 0  # independent mutations: one order only
+
+
 def enabled_ops(s, hist):
     init = s.init
     ops = []
-    last = hist[-1][0] if hist else None
     muts = init["muts"]
-    start = muts.index(last) + 1 if last in muts else 0  # independent mutations: one order only
-    for m in muts[start:]:
+    for m in muts[_por_start(init, hist) :]:
         ops.append([m])
     openi = {fr["i"] for fr in s.stack}
     if len(s.stack) < min(MAXNEST, init.get("maxnest", MAXNEST)):
@@ -745,6 +749,9 @@ def expand(item):
         # back-up slots are hidden state: while a scope is open, states reached through different
         # enter/exit sequences inside it are kept apart (their futures differ if a slot is clobbered)
         "trace": s.trace,
+        # which mutation operations are still enabled (one order only): part of the state, so that
+        # the explored set does not depend on which representative history is met first
+        "por": _por_start(init, hist),
         "cache": observe.digest(cacheobs(s.r)),
         "stack": [[fr["name"], fr["ki"], fr["i"]] for fr in s.stack],
         "flags": _flagobs(s),
@@ -969,7 +976,9 @@ def scenarios(ctx):
         d.update(kw)
         out.append(d)
 
-    pairs = [("R", "R"), ("R", "K"), ("K", "A"), ("A", "B"), ("B", "C"), ("C", "C"), ("B", "R"), ("R", "C"), ("B", "B"), ("A", "K")]
+    pairs = [("R", "R"), ("R", "K"), ("K", "A"), ("A", "B"), ("B", "C"), ("C", "C"), ("B", "R"), ("R", "C"), ("B", "B")]
+    if not ctx.quick:
+        pairs.append(("A", "K"))
     if ctx.quick:
         # keep-set pairs rotate over the object pairs so that each of the 9 combinations occurs
         keeps = [(0, 0), (1, 2), (2, 1), (0, 1), (2, 0), (1, 1), (2, 2), (0, 2), (1, 0), (2, 1)]
